@@ -227,7 +227,8 @@ public:
 		{
 			if (auto xmlNode = LoadNextItem())
 			{
-				if (xmlNode.first_child().type() == pugi::node_element)
+				// Element without children is treated as empty array/object
+				if (xmlNode.type() == pugi::node_element && (xmlNode.first_child().empty() || xmlNode.first_child().type() == pugi::node_element))
 				{
 					return std::make_optional<PugiXmlArrayScope<TMode>>(xmlNode, TArchiveScope<TMode>::GetContext());
 				}
@@ -248,7 +249,8 @@ public:
 		{
 			if (auto xmlNode = LoadNextItem())
 			{
-				if (xmlNode.first_child().type() == pugi::node_element)
+				// Element without children is treated as empty array/object
+				if (xmlNode.type() == pugi::node_element && (xmlNode.first_child().empty() || xmlNode.first_child().type() == pugi::node_element))
 				{
 					return std::make_optional<PugiXmlObjectScope<TMode>>(xmlNode, TArchiveScope<TMode>::GetContext());
 				}
@@ -455,7 +457,8 @@ public:
 		{
 			if (auto child = PugiXmlExtensions::GetChild(mNode, std::forward<TKey>(key)))
 			{
-				if (child.first_child().type() == pugi::node_element)
+				// Element without children is treated as empty object
+				if (child.type() == pugi::node_element && (child.first_child().empty() || child.first_child().type() == pugi::node_element))
 				{
 					return std::make_optional<PugiXmlObjectScope<TMode>>(child, TArchiveScope<TMode>::GetContext());
 				}
@@ -477,7 +480,8 @@ public:
 		{
 			if (auto node = PugiXmlExtensions::GetChild(mNode, std::forward<TKey>(key)))
 			{
-				if (node.first_child().type() == pugi::node_element)
+				// Element without children is treated as empty array
+				if (node.type() == pugi::node_element && (node.first_child().empty() || node.first_child().type() == pugi::node_element))
 				{
 					return std::make_optional<PugiXmlArrayScope<TMode>>(node, TArchiveScope<TMode>::GetContext());
 				}
